@@ -4,7 +4,13 @@
 EXTENDS YMerge, Json, IOUtils
 Recs == JsonDeserialize(IOEnv.RECORDS_IN)
 CfgOf(r) == [hashes |-> r.h, arrays |-> r.a, aoh |-> r.o, sets |-> r.s, idkey |-> "", amode |-> r.am]
-Out(r) == LET m == MergeDocs(TreeOf(r.l, 1), TreeOf(r.r, 1), CfgOf(r), r.am) IN
-  [id |-> r.id, ok |-> m.ok, info |-> m.info, out |-> IF m.ok THEN TabOf(m.tr) ELSE <<>>]
+\* a record may carry a second right-hand document r2 (else <<>>): ONE merger merges r, then r2 - the second merge starts
+\* from the result of the first and from nothing else
+Has2(r) == "r2" \in DOMAIN r /\ Len(r.r2) > 0
+Out(r) == LET m1 == MergeDocs(TreeOf(r.l, 1), TreeOf(r.r, 1), CfgOf(r), r.am)
+              m == IF ~Has2(r) \/ ~m1.ok THEN m1
+                   ELSE LET m2 == MergeDocs(m1.tr, TreeOf(r.r2, 1), CfgOf(r), r.am) IN [m2 EXCEPT !.info = @ \/ m1.info] IN
+  [id |-> r.id, ok |-> m.ok, info |-> m.info, out |-> IF m.ok THEN TabOf(m.tr) ELSE <<>>,
+   ok1 |-> m1.ok]
 ASSUME JsonSerialize(IOEnv.VERDICTS_OUT, [i \in 1..Len(Recs) |-> Out(Recs[i])])
 =============================================================================
